@@ -122,9 +122,10 @@ theorem C19_never_foreign (v : Variant) (env : Env) (items : List Item) (xs : Li
       ∀ fm, ¬ OwnModule env lvl mod fm) :
     n ∉ xs := by
   intro hn
-  rcases C19_own v env items xs hg h n hn with hd | ⟨lvl, mod, als, fm, a, hit, hown, ha, _, _, hb⟩
+  rcases C19_own v env items xs hg h n hn with hd | hre
   · exact hdef hd
-  · exact hforeign lvl mod als a hit ha hb.symm fm hown
+  · obtain ⟨lvl, mod, als, fm, a, hit, hown, ha, _, _, hb⟩ := hre.stmt
+    exact hforeign lvl mod als a hit ha hb.symm fm hown
 
 /-! ## C19_exact — exactness (with D8 fixed, or in the absence of the D8 forms) -/
 
@@ -227,8 +228,62 @@ theorem C19_deleted_not_exported (v : Variant) (env : Env) (pre post : List Item
         | cons b bs' =>
           simp only [List.cons_append, List.cons.injEq] at h2
           obtain ⟨_, rfl⟩ := h2
-          exact hp (.del ns nested) (by simp) (by simp [delSeen, h53, hn])
+          exact hp (.del ns nested) (by simp) (by
+            simp only [delSeen, h53, if_true]
+            split <;> simp [hn])
     · exact hre ((reexports_mem hr n).mp hr')
+
+/-- With CD-E repaired every `del` is seen in full by the code. -/
+theorem delsSeen_of_cde (v : Variant) (h53 : v.d53 = true) (hcde : v.cde = true) (items : List Item) :
+    delsSeen v items = true := by
+  simp only [delsSeen, List.all_eq_true]
+  intro it _ n hn
+  cases it with
+  | del ns nested => simpa [delSeen, h53, hcde, delAll] using hn
+  | _ => simp [delAll] at hn
+
+/-- **C19_exact_fixed5.**  With CD-E and CD-D repaired as well the exactness clause needs no
+    hypothesis about `del`: without a literal `__all__` the exports are exactly the public names
+    among the top-level definitions that no later `del` (of any target shape) removed and the
+    own-package re-exports that no later `del` names. -/
+theorem C19_exact_fixed5 (env : Env) (items : List Item) (xs : List Str)
+    (hg : (allState Variant.fixed5 items).1 = false) (h : exports Variant.fixed5 env items = .ok xs)
+    (n : Str) :
+    n ∈ xs ↔ (n.head? ≠ some '_' ∧ '.' ∉ n ∧
+      (n ∈ liveDefs items ∨ OwnReexport Variant.fixed5 env items n)) :=
+  C19_exact_partial Variant.fixed5 env items xs (Or.inl rfl)
+    (delsSeen_of_cde Variant.fixed5 rfl rfl items) hg h n
+
+/-- **C19_deleted_reexport_not_exported.**  (CD-D repaired.)  A name whose last top-level event is
+    `del` — no later statement makes it a member or imports it from the own package again — is
+    not exported, even when it was an own-package re-export before the `del`. -/
+theorem C19_deleted_reexport_not_exported (v : Variant) (env : Env) (pre post : List Item)
+    (ns nested : List Str) (xs : List Str) (n : Str)
+    (h53 : v.d53 = true) (hcdd : v.cdd = true) (hn : n ∈ ns)
+    (hpost : ∀ it ∈ post, n ∉ memberFromNode v it)
+    (hpostre : ∀ lvl mod als, Item.importFrom lvl mod als ∈ post → ∀ a ∈ als, a.bound ≠ n)
+    (hg : (allState v (pre ++ .del ns nested :: post)).1 = false)
+    (h : exports v env (pre ++ .del ns nested :: post) = .ok xs) :
+    n ∉ xs := by
+  apply C19_deleted_not_exported v env pre post ns nested xs n h53 hn hpost hg ?_ h
+  rintro ⟨pre', post', lvl, mod, als, fm, a, heq, _, ha, _, _, hb, hd⟩
+  rcases List.append_eq_append_iff.mp heq with ⟨as, h1, h2⟩ | ⟨bs, h1, h2⟩
+  · cases as with
+    | nil => simp at h2
+    | cons x as' =>
+      simp only [List.cons_append, List.cons.injEq] at h2
+      obtain ⟨_, rfl⟩ := h2
+      exact hpostre lvl mod als (by simp) a ha hb.symm
+  · cases bs with
+    | nil => simp at h2
+    | cons x bs' =>
+      simp only [List.cons_append, List.cons.injEq] at h2
+      obtain ⟨_, rfl⟩ := h2
+      apply hd
+      simp only [delLater, hcdd, if_true, List.mem_flatMap]
+      exact ⟨.del ns nested, by simp, by
+        simp only [delSeen, h53, if_true]
+        split <;> simp [hn]⟩
 
 /-- `exports` never fails when there is no literal `__all__` (the only error branch left is
     `DottedIdentifier(None)`, which `ast.parse` output cannot reach). -/
@@ -283,13 +338,23 @@ theorem allStep_eraseLoads (v : Variant) (st : Bool × List Entry) (it : Item) :
   | augAssign t val => simp [Item.eraseLoads, allStep, allAssignVal, isAllTarget_eraseLoads]
   | _ => rfl
 
+theorem delLater_eraseLoads (v : Variant) (items : List Item) :
+    delLater v (items.map Item.eraseLoads) = delLater v items := by
+  have hd : ∀ it : Item, delSeen v it.eraseLoads = delSeen v it := by intro it; cases it <;> rfl
+  unfold delLater
+  split
+  · induction items with
+    | nil => rfl
+    | cons x xs ih => simp only [List.map_cons, List.flatMap_cons, hd, ih]
+  · rfl
+
 theorem reexports_eraseLoads (v : Variant) (env : Env) (items : List Item) :
     reexports v env (items.map Item.eraseLoads) = reexports v env items := by
   induction items with
   | nil => rfl
   | cons it rest ih =>
     have h : reexportsOf v env it.eraseLoads = reexportsOf v env it := by cases it <;> rfl
-    simp only [List.map_cons, reexports, h, ih]
+    simp only [List.map_cons, reexports, h, ih, delLater_eraseLoads]
 
 /-- **C19_store_only.**  The exports do not depend on which names occur in Load context inside
     assignment targets (bases / indices of attribute and subscript targets, alone or as elements
@@ -348,7 +413,7 @@ theorem C19_importable_partial (v : Variant) (env : Env) (items : List Item) (xs
       · exact liveDefs_sub_bound items n (members_sub_liveDefs hdel n hm)
       · have hown := (reexports_mem hr n).mp hr'
         have hown' := hown
-        obtain ⟨lvl, mod, als, fm, a, hit, _, ha, hne, _, hb⟩ := hown'
+        obtain ⟨lvl, mod, als, fm, a, hit, _, ha, hne, _, hb⟩ := hown'.stmt
         refine mem_live_of_no_del hit ?_ (fun j hj hc => hre j hj n hc hown)
         simp only [itemBinds, List.mem_map, List.mem_filter, bne_iff_ne, ne_eq]
         exact ⟨a, ⟨ha, hne⟩, hb.symm⟩
@@ -667,6 +732,31 @@ theorem d31_fixed : exports Variant.fixed envP d31Items = .ok ["leaf".toList] :=
 theorem del_reexport_fixed : exports Variant.fixed envP
     [.importFrom 1 (some ["sp".toList]) [⟨"spx".toList, none⟩], .del ["spx".toList] []]
     = .ok ["spx".toList] := by decide
+
+/-- CD-E repaired: `a = b = c = 1; keep = 2; del (a, b); del [c]` exports `[keep]`
+    (`Variant.fixed`: all four, see `del_nested_fixed`). -/
+def cdeItems : List Item :=
+  [.assign [.name "a".toList, .name "b".toList, .name "c".toList] .nonlit,
+   .assign [.name "keep".toList] .nonlit,
+   .del [] ["a".toList, "b".toList], .del [] ["c".toList]]
+
+theorem cde_before : exports Variant.fixed envM cdeItems =
+    .ok ["a".toList, "b".toList, "c".toList, "keep".toList] := by decide
+theorem cde_fixed5 : exports Variant.fixed5 envM cdeItems = .ok ["keep".toList] := by decide
+
+/-- CD-D repaired: `from .sp import spx as a, spx as y, spx as z; keep = 2; del a, z;
+    from .sp import spx as z` in a package `__init__`: `a` is gone, `z` was imported again. -/
+def cddItems : List Item :=
+  [.importFrom 1 (some ["sp".toList])
+     [⟨"spx".toList, some "a".toList⟩, ⟨"spx".toList, some "y".toList⟩, ⟨"spx".toList, some "z".toList⟩],
+   .assign [.name "keep".toList] .nonlit,
+   .del ["a".toList, "z".toList] [],
+   .importFrom 1 (some ["sp".toList]) [⟨"spx".toList, some "z".toList⟩]]
+
+theorem cdd_before : exports Variant.fixed envP cddItems =
+    .ok ["keep".toList, "a".toList, "y".toList, "z".toList, "z".toList] := by decide
+theorem cdd_fixed5 : exports Variant.fixed5 envP cddItems =
+    .ok ["keep".toList, "y".toList, "z".toList] := by decide
 
 end Witness
 
